@@ -247,7 +247,7 @@ def vector_cursors(ctx, rng, built, s, wb):
 def run(ctx):
     from vf import model
     model.check_analysis()
-    for idx in ctx.cases(quick=60, thorough=500):
+    for idx in ctx.cases(quick=140, thorough=600):
         rng = ctx.rng(idx)
         ctx.reseed_global(idx)
         nested = rng.random() < 0.15
